@@ -1,3 +1,4 @@
+import JominiModel.Proofs.TextDeParsed
 import JominiModel.Proofs.BinTapeTotal
 import JominiModel.Proofs.BinReader
 import JominiModel.Proofs.BinLexerTotal
